@@ -18,6 +18,7 @@ import (
 	"github.com/dolthub/go-mysql-server/sql"
 	"github.com/dolthub/go-mysql-server/sql/analyzer"
 	"github.com/dolthub/go-mysql-server/sql/memo"
+	"github.com/dolthub/go-mysql-server/sql/mysql_db"
 	"github.com/dolthub/go-mysql-server/sql/types"
 	"github.com/dolthub/vitess/go/vt/sqlparser"
 )
@@ -29,6 +30,8 @@ type Opts struct {
 	Root     bool        // IncludeRootAccount (enables authentication / privilege checks)
 	Coster   memo.Coster // optional replacement for the join coster
 	Stats    bool        // install memory.NewStatsProv()
+	// NoPersister leaves MySQLDb without a persister even when Root is set
+	NoPersister bool
 }
 
 // Fixture is one engine over one in-memory provider.
@@ -62,6 +65,11 @@ func New(o Opts) *Fixture {
 		a.Catalog.StatsProvider = memory.NewStatsProv()
 	}
 	f.Engine = sqle.New(a, &sqle.Config{IsReadOnly: o.ReadOnly, IncludeRootAccount: o.Root})
+	if o.Root && !o.NoPersister {
+		// integrators that enable accounts install a persister (the enginetest harness uses
+		// the no-op one); without it every account statement dereferences a nil persister
+		a.Catalog.MySQLDb.SetPersister(&mysql_db.NoopPersister{})
+	}
 	return f
 }
 
